@@ -395,6 +395,8 @@ def _canon_any(call):
         return "value-error"
     except TypeError:
         return "type-error"
+    except Exception as ex:  # noqa: BLE001  (an IndexError/KeyError escaping from the code under test is a result)
+        return "raises-" + type(ex).__name__
 
     def frame(df, want_kind):
         if not isinstance(df, pd.DataFrame):
@@ -893,11 +895,15 @@ def _oracle_entry(ctx, impls, seq, scale):
                              % (name, kind), inp2, got[:8], want[:8])
     # the wrapper's packaging
     if len(x) >= 2:
-        ref_rf, ref_os = cyclecount.rain.rainflow(x, True)
-        for g in (True, False):
-            for up in (True, False, None):
-                kw = {} if up is None else {"use_pandas": up}
-                r = cyclecount.rainflow(x, g, **kw)
+        try:
+            ref_rf, ref_os = cyclecount.rain.rainflow(x, True)
+            res = {(g, up): cyclecount.rainflow(x, g, **({} if up is None else {"use_pandas": up}))
+                   for g in (True, False) for up in (True, False, None)}
+        except Exception as ex:  # noqa: BLE001
+            ctx.fail("wrapper-raises", "cyclecount.rainflow raises on a valid vector", base, repr(ex)[:120], "a cycle table")
+            res = {}
+        for (g, up), r in res.items():
+            if True:
                 parts = r if g else (r,)
                 inp = dict(base, getoffsets=g, use_pandas=up)
                 if (up is False) != all(isinstance(q, np.ndarray) for q in parts) or \
@@ -929,8 +935,8 @@ def _oracle_entry(ctx, impls, seq, scale):
             try:
                 got = _call_with(fn, y, gopt)()
                 st = "ok"
-            except ValueError:
-                got, st = None, "ValueError"
+            except Exception as ex:  # noqa: BLE001
+                got, st = None, type(ex).__name__
             inp = dict(base, impl=name, session=list(hist), peaks=y.tolist())
             if len(y) < 2:
                 if st != "ValueError":
